@@ -729,14 +729,20 @@ def r5_fixtime(ctx):
     for q, f, want, pa, pv in twins:
         ctx.src.funcs_consulted.add(f"{DSP}:{q}")
         bad = unk = None
-        for A, ts in worlds():
-            ts = [t for t in ts if not (want is previous and t in A)]
+        for A, ts0, k0 in [(A, ts, k) for A, ts in worlds() for k in range(len(ts))]:
+            # (every suffix of the query list: loop code treats the first query separately; the searches assume the first query is not beyond the last old time)
+            ts = [t for t in ts0[k0:] if not (want is previous and t in A)]
+            if not ts or ts[0] > A[-1]:
+                continue
             tup = lambda xs: PyTuple(F.const(x) for x in xs)      # noqa
             params = [x.arg for x in f.args.posonlyargs + f.args.args]
             if pa not in params or pv not in params:
                 unk = f"the parameters {pa}, {pv} of the definition followed are not parameters of this one"
                 break
             got = run_concrete(ctx, f, {pa: tup(A), pv: tup(ts)})
+            if is_unknown(got) and "index out of range" in str(getattr(got, "why", "")):
+                bad = {"old times": [str(x) for x in A], "new times": [str(x) for x in ts], "selected": "an element outside the arrays is read or written"}
+                break
             if isinstance(got, tuple) and len(got) == len(ts) and all(int_of(x) is not None for x in got):
                 res = [int_of(x) for x in got]
             else:
